@@ -28,7 +28,7 @@ func NewRecorder(dir string, shards int) (*Recorder, error) {
 	if err := os.MkdirAll(dir, 0o755); err != nil {
 		return nil, err
 	}
-	r := &Recorder{dir: dir, keys: map[string]int{}, realise: map[string]int{}}
+	r := &Recorder{dir: dir, keys: map[string]int{}, realise: map[string]int{}, samples: []any{}}
 	for i := 0; i < shards; i++ {
 		f, err := os.Create(filepath.Join(dir, fmt.Sprintf("trace-%02d.ndjson", i)))
 		if err != nil {
@@ -61,8 +61,12 @@ func (r *Recorder) Emit(key string, ev map[string]any) {
 	r.counts[r.next]++
 	r.n++
 	r.keys[key]++
-	if len(r.samples) < 3 && len(b) < 4000 {
-		r.samples = append(r.samples, json.RawMessage(b))
+	if len(r.samples) < 3 {
+		if len(b) < 4000 {
+			r.samples = append(r.samples, json.RawMessage(b))
+		} else if r.n%7 == 1 || r.n == 1 {
+			r.samples = append(r.samples, map[string]any{"key": key, "op": ev["op"], "note": fmt.Sprintf("event of %d bytes, first 1500 shown", len(b)), "head": string(b[:1500])})
+		}
 	}
 }
 
